@@ -120,16 +120,17 @@ type prioExec struct {
 	chans  []*pInput        // by channel id
 	nextCh int
 
-	held    []Dlv
-	heldN   atomic.Int64 // mirror of len(held) for the divider monitor
-	recvN   atomic.Int64 // mirror of res.Received for the divider monitor
-	inRecv  atomic.Bool  // the stepper is inside a blocking receive
-	heldBy  map[uint]int
-	shares  map[uint]uint
-	div     divFn
-	relPend atomic.Int64
-	abort   chan struct{}
-	wg      sync.WaitGroup
+	held      []Dlv
+	heldN     atomic.Int64 // mirror of len(held) for the divider monitor
+	recvN     atomic.Int64 // mirror of res.Received for the divider monitor
+	inRecv    atomic.Bool  // the stepper is inside a blocking receive
+	heldBy    map[uint]int
+	shares    map[uint]uint
+	div       divFn
+	relPend   atomic.Int64
+	recentRel int // releases issued since the last completed settle (the scheduler consumes a bounded number per round)
+	abort     chan struct{}
+	wg        sync.WaitGroup
 
 	outClosed  bool
 	errClosed  bool
@@ -455,7 +456,13 @@ func (x *prioExec) pollCtl() {
 // settle drains to quiescence: nothing arrives for a window derived from the loop structure.
 func (x *prioExec) settle() {
 	step := time.Duration(4*x.unbuffered()+2) * time.Nanosecond
-	need := 5 + int(x.relPend.Load())/x.feedbackLimit()
+	unread := func() int {
+		if x.sys.fbLen != nil {
+			return x.sys.fbLen()
+		}
+		return 0
+	}
+	need := 5 + (int(x.relPend.Load())+unread()+x.recentRel)/x.feedbackLimit()
 	idle := 0
 	for idle < need && !x.termSeen {
 		synctest.Wait()
@@ -466,8 +473,19 @@ func (x *prioExec) settle() {
 		idle++
 		time.Sleep(step)
 	}
+	// v1: release signals still sitting unread in the (harness-owned) feedback channel mean
+	// that the library's own in-flight counters lag behind; give the scheduler the rounds it
+	// needs to consume them (it takes a bounded number per round)
+	for i := 0; i < 4000 && unread() > 0 && !x.termSeen && !x.stopIssued; i++ {
+		time.Sleep(step)
+		synctest.Wait()
+		x.pull()
+	}
 	synctest.Wait()
 	x.pull()
+	if !x.termSeen {
+		x.recentRel = 0
+	}
 }
 
 // await receives until cond holds or the virtual window w has passed.
@@ -539,6 +557,7 @@ func (x *prioExec) startRelease(idx []int) {
 		}()
 	}
 	x.res.ReleaseGrps++
+	x.recentRel += len(rel)
 	if x.sc.Saturate && x.armed() {
 		x.res.SatGroups++
 	}
@@ -692,27 +711,9 @@ func (x *prioExec) aloneProbe(op POp) {
 	if in == nil || in.closeEnq {
 		return
 	}
-	// reach the empty state: everything delivered and released
-	for i := 0; i < 400 && !x.termSeen; i++ {
-		x.startRelease(x.pickRelease(POp{Mode: "all"}))
-		x.settle()
-		empty := len(x.held) == 0 && x.relPend.Load() == 0
-		for _, o := range x.inputs {
-			if o.undelivered() || o.enq > o.recv {
-				empty = false
-			}
-		}
-		if empty {
-			break
-		}
-	}
-	if x.termSeen || len(x.held) > 0 {
+	// reach the empty state: everything delivered, released, and every release consumed
+	if !x.reachEmpty() || len(x.held) > 0 {
 		return
-	}
-	for _, o := range x.inputs {
-		if o.enq > o.recv {
-			return
-		}
 	}
 	// The statement is asserted for data that is waiting in the buffer: with items trickling in
 	// one by one the scheduler may by design wait for one more feedback (every uncrowded
@@ -741,7 +742,7 @@ func (x *prioExec) reachEmpty() bool {
 	for i := 0; i < 400 && !x.termSeen; i++ {
 		x.startRelease(x.pickRelease(POp{Mode: "all"}))
 		x.settle()
-		empty := len(x.held) == 0 && x.relPend.Load() == 0
+		empty := len(x.held) == 0 && x.relPend.Load() == 0 && (x.sys.fbLen == nil || x.sys.fbLen() == 0)
 		for _, o := range x.inputs {
 			if o.undelivered() || o.enq > o.recv {
 				empty = false
